@@ -8,7 +8,7 @@ V = os.path.join(os.path.dirname(os.path.abspath(__file__)), "..", "coq", "Gen")
 cov = {}
 for f in glob.glob(os.path.join(V, "pysrc*_gen.v")):
     for m in re.finditer(r"\(\* (netaddr/[\w/]+\.py): ([\w.]+)[^*]*?lines (\d+)-(\d+)", open(f).read()):
-        if "loop" in m.group(0).split("lines")[0]:
+        if re.search(r", loop \d+ \(", m.group(0).split("lines")[0]):      # a loop's Fixpoint header (not a function named ..loop..)
             continue
         cov.setdefault(m.group(1), set()).add((m.group(2), int(m.group(3)), int(m.group(4))))
 def nstmts(fn):
